@@ -157,6 +157,26 @@ def compare_instances(S, mi, mp, ri, rp):
 def mutate_text(rng, text, xml):
     """one or two structure-level faults: duplicated / deleted / swapped lines, renamed references, dropped tokens"""
     lines = text.split('\n')
+    if rng.random() < 0.12:
+        # an init that names something other than a location of the template: a branchpoint, a variable, a location of another template
+        if xml:
+            ids = re.findall(r'<(?:branchpoint|location)[^>]*\bid="(\w+)"', text)
+            bps = re.findall(r'<branchpoint[^>]*\bid="(\w+)"', text)
+            ks = [k for k, l in enumerate(lines) if '<init ' in l]
+            if ids and ks:
+                k = rng.choice(ks)
+                o = rng.choice(bps if bps and rng.random() < 0.7 else ids)
+                lines[k] = re.sub(r'(<init\s+ref=")\w+(")', lambda m: m.group(1) + o + m.group(2), lines[k], count=1)
+                return '\n'.join(lines)
+        else:
+            bps = re.findall(r'\bbranchpoint\s+(\w+)', text)
+            others = bps if bps and rng.random() < 0.7 else re.findall(r'\b(?:int|clock|bool|chan|process|void|branchpoint)\b(?:\s*\[[^\]]*\])?\s+(\w+)', text)
+            ks = [k for k, l in enumerate(lines) if re.search(r'\binit\s+\w+\s*;', l)]
+            if others and ks:
+                k = rng.choice(ks)
+                o = rng.choice(others)
+                lines[k] = re.sub(r'\binit\s+\w+\s*;', 'init %s;' % o, lines[k], count=1)
+                return '\n'.join(lines)
     if not xml and rng.random() < 0.25:
         # an edge end that names something other than a location: a variable, a clock, a parameter, a template, a function
         others = re.findall(r'\b(?:int|clock|bool|chan|process|void)\b(?:\s*\[[^\]]*\])?\s+(\w+)', text)
